@@ -434,9 +434,9 @@ impl<'a> VisitMut for LogPass<'a> {
                     continue;
                 }
             }
-            // R20: a `const` item inside a body becomes a `let` with the same type and initialiser (a reference type
-            // without lifetime gets 'static, as in a const)
-            if let Stmt::Item(Item::Const(c)) = &s {
+            // R20: a `const` item of reference type (lifetime elided) inside a body becomes a `let` with the same
+            // initialiser and an explicit 'static lifetime (Verus rejects the elided lifetime); other consts are kept
+            if let Stmt::Item(Item::Const(c)) = &s { if matches!(&*c.ty, Type::Reference(r) if r.lifetime.is_none()) {
                 let name = &c.ident;
                 let mut ty = (*c.ty).clone();
                 if let Type::Reference(r) = &mut ty { if r.lifetime.is_none() { r.lifetime = Some(parse_quote!('static)); } }
@@ -444,7 +444,7 @@ impl<'a> VisitMut for LogPass<'a> {
                 self.rules.hit("R20.inner_const_as_let");
                 out.push(parse_quote!(let #name: #ty = #ex;));
                 continue;
-            }
+            } }
             // R19: `use` declarations inside a body are dropped (the names are provided by the unit's prelude)
             if matches!(&s, Stmt::Item(Item::Use(_))) { self.rules.hit("R19.inner_use_dropped"); continue; }
             out.push(s);
